@@ -4,10 +4,7 @@ Require Import ZifyBool.
 
 (* ------------------------------------------------------------------ well-formed screens *)
 
-Definition WF (s : screen) : Prop :=
-  zlen (sbuf s) = srows s /\ Forall (fun l => zlen l = scols s) (sbuf s).
 
-Definition same_dims (s s' : screen) : Prop := scols s' = scols s /\ srows s' = srows s.
 
 Lemma same_dims_refl s : same_dims s s.
 Proof. split; reflexivity. Qed.
@@ -85,11 +82,6 @@ Proof.
       * rewrite (zget_zupd_other _ _ _ _ _ Eb); [reflexivity|congruence].
 Qed.
 
-(* [s'] is [s] with the cell at (X,Y) replaced by [f old] *)
-Definition updated_at (s s' : screen) (X Y : Z) (f : cell -> cell) : Prop :=
-  WF s' /\ same_dims s s' /\
-  (exists old, sget s X Y = Some old /\ sget s' X Y = Some (f old)) /\
-  forall x y, (x <> X \/ y <> Y) -> sget s' x y = sget s x y.
 
 Lemma screen_setcell_spec s col row c :
   WF s -> exists s', screen_setcell s col row c = Some s' /\
@@ -269,9 +261,6 @@ Proof.
       destruct (Z.eq_dec X X0) as [->|]; [|auto]. destruct (Z.eq_dec Y Y0) as [->|]; [|auto]. congruence.
 Qed.
 
-(* nothing outside the clip changes *)
-Definition clipped (w : window) (s s' : screen) : Prop :=
-  WF s' /\ same_dims s s' /\ forall X Y, visible w s X Y = false -> sget s' X Y = sget s X Y.
 
 Lemma draw_places_clipped w ps s :
   WF s -> exists s', draw_places w s ps = Some s' /\ clipped w s s'.
@@ -423,26 +412,34 @@ Proof.
     exists y; split; [apply In_zrange; exact Hy|]. apply in_map_iff; exists x; split; [reflexivity|apply In_zrange; exact Hx].
 Qed.
 
+Lemma last_at_some_in ps col row c :
+  last_at ps col row = Some c -> exists p, In p ps /\ snd p = c /\ fst (fst p) = col /\ snd (fst p) = row.
+Proof.
+  induction ps as [|p t IH]; cbn [last_at]; [discriminate|].
+  destruct (last_at t col row) as [c'|].
+  - intros H; injection H as <-. destruct (IH eq_refl) as (q & Hq & Hr); exists q; split; [right; exact Hq|exact Hr].
+  - destruct ((fst (fst p) =? col) && (snd (fst p) =? row)) eqn:E; [|discriminate].
+    intros H; injection H as <-. exists p; split; [left; reflexivity|]. split; [reflexivity|lia].
+Qed.
+
+Lemma last_at_hit ps col row :
+  (exists p, In p ps /\ fst (fst p) = col /\ snd (fst p) = row) -> last_at ps col row <> None.
+Proof.
+  induction ps as [|p t IH]; intros (q & Hin & Hx & Hy); [destruct Hin|]. cbn [last_at].
+  destruct (last_at t col row) as [c'|] eqn:E; [discriminate|].
+  destruct Hin as [->|Hin].
+  - replace ((fst (fst q) =? col) && (snd (fst q) =? row)) with true by lia. discriminate.
+  - exfalso; apply IH; eauto.
+Qed.
+
 Lemma last_at_uniform ps c col row :
   (forall p, In p ps -> snd p = c) ->
   (exists p, In p ps /\ fst (fst p) = col /\ snd (fst p) = row) ->
   last_at ps col row = Some c.
 Proof.
-  induction ps as [|p t IH]; intros Hall (q & Hin & Hx & Hy); [destruct Hin|]. cbn [last_at].
-  destruct (last_at t col row) as [c'|] eqn:E.
-  - destruct Hin as [->|Hin].
-    + (* something later is also there: it carries c too *)
-      clear IH. revert E. assert (Ht : forall p, In p t -> snd p = c) by (intros; apply Hall; right; auto).
-      clear Hall. induction t as [|p' t' IH']; cbn [last_at]; [discriminate|].
-      destruct (last_at t' col row) eqn:E'.
-      * intros H; apply IH'; [intros; apply Ht; right; auto|exact H].
-      * destruct ((fst (fst p') =? col) && (snd (fst p') =? row)); [|discriminate].
-        intros H; injection H as <-. f_equal; apply Ht; left; reflexivity.
-    + rewrite <- E; apply IH; [intros; apply Hall; right; auto|eauto].
-  - destruct Hin as [->|Hin].
-    + replace ((fst (fst q) =? col) && (snd (fst q) =? row)) with true by lia.
-      f_equal; apply Hall; left; reflexivity.
-    + rewrite IH in E; [discriminate|intros; apply Hall; right; auto|eauto].
+  intros Hall Hex. destruct (last_at ps col row) as [c'|] eqn:E.
+  - apply last_at_some_in in E as (p & Hp & <- & _). f_equal; apply Hall; exact Hp.
+  - exfalso; revert E; apply last_at_hit; exact Hex.
 Qed.
 
 Lemma last_at_none ps col row :
@@ -477,3 +474,597 @@ Proof.
   - exists (X - fst (origin w), Y - snd (origin w), c); split; [|split; reflexivity].
     apply In_fill_places; cbn [fst snd]; tauto.
 Qed.
+
+(* ------------------------------------------------------------------ every drawing call as placements *)
+
+Section Ops.
+Variable measure : text -> Z.
+Variable remeasure : bool.
+Variable trailing : text -> bool.
+
+Definition op_places (w : window) (o : op) : list placement :=
+  let cols := fw (wframe w) in
+  let rows := fh (wframe w) in
+  match o with
+  | OSetCell col row c => [(col, row, c)]
+  | OSetStyle _ _ _ => []
+  | OFill c => fill_places cols rows c
+  | OClear => fill_places cols rows space_cell
+  | OPrint segs => fst (print_places measure remeasure cols rows (items_of segs) 0 0)
+  | OPrintTruncate row segs =>
+      if row >=? rows then [] else ptrunc_places measure remeasure cols (items_of segs) 0 row
+  | OPrintln row segs =>
+      if row >=? rows then [] else println_places measure remeasure cols (items_of segs) 0 row
+  | OWrap lsegs => fst (wrap_places measure remeasure trailing cols rows lsegs 0 0)
+  end.
+
+Definition is_setstyle (o : op) : bool := match o with OSetStyle _ _ _ => true | _ => false end.
+
+Lemma run_op_places w s o :
+  is_setstyle o = false ->
+  exists ret, run_op_with measure remeasure trailing w s o =
+    match draw_places w s (op_places w o) with None => None | Some s' => Some (s', ret) end.
+Proof.
+  destruct o as [col row c|col row st|c| |segs|row segs|row segs|lsegs]; intros Hs; try discriminate;
+    cbn [run_op_with op_places].
+  - exists (0, 0). unfold draw_places; cbn [foldM fst snd]. destruct (win_setcell w s col row c); reflexivity.
+  - exists (0, 0). rewrite win_fill_places; reflexivity.
+  - exists (0, 0). unfold win_clear; rewrite win_fill_places; reflexivity.
+  - eexists. unfold win_print, win_size. rewrite print_loop_places. reflexivity.
+  - exists (0, 0). unfold win_print_truncate, win_size. destruct (row >=? fh (wframe w)); [reflexivity|].
+    rewrite ptrunc_loop_places; reflexivity.
+  - exists (0, 0). unfold win_println, win_size. destruct (row >=? fh (wframe w)); [reflexivity|].
+    rewrite println_loop_places; reflexivity.
+  - eexists. unfold win_wrap, win_size. rewrite wrap_loop_places. reflexivity.
+Qed.
+
+(* draw_clip: no drawing call panics on a well-formed screen or changes anything outside
+   the window, its ancestors and the screen *)
+Lemma run_op_clipped w s o :
+  WF s -> exists s' ret, run_op_with measure remeasure trailing w s o = Some (s', ret) /\ clipped w s s'.
+Proof.
+  intros H. destruct (is_setstyle o) eqn:Es.
+  - destruct o as [| col row st | | | | | |]; try discriminate. cbn [run_op_with].
+    destruct (setstyle_clip w s col row st H) as (s' & E & Hv). rewrite E. exists s', (0, 0); split; [reflexivity|].
+    destruct (visible w s (fst (origin w) + col) (snd (origin w) + row)) eqn:EV.
+    + destruct Hv as (Hwf & Hd & _ & Hrest). split; [exact Hwf|]. split; [exact Hd|].
+      intros X Y HV. apply Hrest.
+      destruct (Z.eq_dec X (fst (origin w) + col)) as [->|]; [|auto].
+      destruct (Z.eq_dec Y (snd (origin w) + row)) as [->|]; [|auto]. congruence.
+    + subst s'. split; [exact H|]. split; [apply same_dims_refl|reflexivity].
+  - destruct (run_op_places w s o Es) as (ret & E). rewrite E.
+    destruct (draw_places_clipped w (op_places w o) s H) as (s' & E' & Hc). rewrite E'.
+    exists s', ret; split; [reflexivity|exact Hc].
+Qed.
+
+End Ops.
+
+(* ------------------------------------------------------------------ the constructor *)
+
+Lemma clamp_size_edge size off parent : off + clamp_size size off parent <= parent.
+Proof. unfold clamp_size. destruct (size <? 0) eqn:E1; [lia|]. destruct (size + off >? parent) eqn:E2; lia. Qed.
+
+Lemma clamp_size_keeps size off parent : 0 <= size -> size + off <= parent -> clamp_size size off parent = size.
+Proof. intros H1 H2; unfold clamp_size. destruct (size <? 0) eqn:E1; [lia|]. destruct (size + off >? parent) eqn:E2; [lia|reflexivity]. Qed.
+
+Lemma clamp_size_cases size off parent : clamp_size size off parent = size \/ clamp_size size off parent = parent - off.
+Proof. unfold clamp_size. destruct (size <? 0); [auto|]. destruct (size + off >? parent); auto. Qed.
+
+Lemma win_new_edges w col row cols rows C R :
+  edges_ok (win_new w col row cols rows) C R = edges_ok w C R.
+Proof.
+  unfold win_new, win_size. cbn [edges_ok fcol frow fw fh].
+  pose proof (clamp_size_edge cols col (fw (wframe w))). pose proof (clamp_size_edge rows row (fh (wframe w))).
+  replace (col + clamp_size cols col (fw (wframe w)) <=? fw (wframe w)) with true by lia.
+  replace (row + clamp_size rows row (fh (wframe w)) <=? fh (wframe w)) with true by lia.
+  reflexivity.
+Qed.
+
+Lemma root_window_edges s : edges_ok (root_window s) (scols s) (srows s) = true.
+Proof. unfold root_window; cbn [edges_ok fcol frow fw fh]. lia. Qed.
+
+Lemma build_window_edges s ws :
+  built_by_constructors ws = true -> edges_ok (build_window s ws) (scols s) (srows s) = true.
+Proof.
+  destruct ws as [[f|] steps]; unfold built_by_constructors, build_window; cbn [fst snd]; [discriminate|].
+  generalize (root_window_edges s). generalize (root_window s).
+  induction steps as [|[via [[[a b] c] d]] t IH]; intros w Hw Hall; cbn [fold_left forallb fst] in *; [exact Hw|].
+  apply andb_prop in Hall as [Hv Ht]. rewrite Hv. apply IH; [|exact Ht]. rewrite win_new_edges; exact Hw.
+Qed.
+
+(* the rectangle of a child made by New at a non-negative offset lies in its parent's *)
+Lemma win_new_inside_parent w col row cols rows x y :
+  0 <= col -> 0 <= row ->
+  in_rect (win_new w col row cols rows) x y = true -> in_rect w x y = true.
+Proof.
+  intros Hc Hr. unfold win_new, win_size, in_rect. cbn [origin wframe fcol frow fw fh].
+  destruct (origin w) as [ox oy].
+  pose proof (clamp_size_edge cols col (fw (wframe w))). pose proof (clamp_size_edge rows row (fh (wframe w))).
+  lia.
+Qed.
+
+(* ------------------------------------------------------------------ glyph footprints *)
+
+Lemma footprint_inside w : forall C R X Y k i,
+  edges_ok w C R = true -> in_clip w X Y = true ->
+  (X - fst (origin w)) + k <= fw (wframe w) -> 0 <= i < k ->
+  in_clip w (X + i) Y = true /\ X + i < C.
+Proof.
+  induction w as [f|f p IH]; intros C R X Y k i He Hc Hk Hi; cbn [in_clip edges_ok origin wframe] in *.
+  - unfold in_rect in *; cbn [origin wframe fst snd] in *. lia.
+  - apply andb_prop in Hc as [Hr Hp].
+    destruct (origin p) as [px py] eqn:Ep; cbn [fst snd] in *.
+    assert (He' : edges_ok p C R = true) by lia.
+    destruct (IH C R X Y k i He' Hp) as [H1 H2]; [cbn [fst]; lia|lia|].
+    split; [|exact H2]. rewrite H1, andb_true_r.
+    unfold in_rect in *; cbn [origin wframe] in *. rewrite Ep in Hr |- *. cbn [fst snd] in *. lia.
+Qed.
+
+Lemma glyph_inside w s X Y c :
+  edges_ok w (scols s) (srows s) = true -> visible w s X Y = true ->
+  (X - fst (origin w)) + cw c <= fw (wframe w) \/ cw c <= 1 ->
+  forall i, 0 <= i < glyph_w c -> visible w s (X + i) Y = true.
+Proof.
+  intros He HV Hfit i Hi. unfold visible in *. apply andb_prop in HV as [Hc Hs].
+  unfold glyph_w in Hi.
+  destruct (Z_le_dec (cw c) 1) as [Hle|Hgt].
+  - assert (i = 0) by lia; subst i. rewrite Z.add_0_r, Hc, Hs; reflexivity.
+  - destruct Hfit as [Hfit|]; [|lia].
+    destruct (footprint_inside w (scols s) (srows s) X Y (cw c) i He Hc Hfit) as [H1 H2]; [lia|].
+    rewrite H1. unfold on_screen in *. lia.
+Qed.
+
+(* a cell that changed was put there by one of the placements *)
+Lemma changed_by_placement w ps s s' X Y c :
+  WF s -> draw_places w s ps = Some s' ->
+  sget s' X Y = Some c -> sget s X Y <> Some c ->
+  visible w s X Y = true /\
+  exists p, In p ps /\ snd p = c /\ fst (fst p) = X - fst (origin w) /\ snd (fst p) = Y - snd (origin w).
+Proof.
+  intros H E Hn Ho. destruct (draw_exact w ps s H) as (s1 & E1 & _ & _ & Hget).
+  rewrite E in E1; injection E1 as <-. rewrite Hget in Hn.
+  destruct (visible w s X Y); [|congruence]. split; [reflexivity|].
+  destruct (last_at ps (X - fst (origin w)) (Y - snd (origin w))) as [c'|] eqn:EL; [|congruence].
+  injection Hn as ->. apply last_at_some_in in EL. exact EL.
+Qed.
+
+(* ------------------------------------------------------------------ layout of the text helpers *)
+
+Lemma fit_some cols col row w c1 r1 :
+  fit cols col row w = Some (c1, r1) ->
+  c1 + w <= cols /\ ((c1 = col /\ r1 = row /\ col + w <= cols) \/ (c1 = 0 /\ r1 = row + 1 /\ cols < col + w)).
+Proof.
+  unfold fit. destruct (col + w >? cols) eqn:E1.
+  - destruct (w >? cols) eqn:E2; [discriminate|]. intros H; injection H as <- <-. lia.
+  - intros H; injection H as <- <-. lia.
+Qed.
+
+Lemma fit_none cols col row w : fit cols col row w = None -> cols < w /\ cols < col + w.
+Proof.
+  unfold fit. destruct (col + w >? cols) eqn:E1; [|discriminate].
+  destruct (w >? cols) eqn:E2; [|discriminate]. lia.
+Qed.
+
+
+Lemma reach_refl a : reach a a.
+Proof. left; auto. Qed.
+
+Lemma reach_trans a b c : reach a b -> reach b c -> reach a c.
+Proof. unfold reach; intros [[H1 H2]|[H1 H2]] [[H3 H4]|[H3 H4]]; [left|right|right|right]; lia. Qed.
+
+
+Lemma path_ok_reach st st' ps en : reach st st' -> path_ok st' ps en -> path_ok st ps en.
+Proof. destruct ps as [|p t]; cbn [path_ok]; [apply reach_trans|]. intros H [H1 H2]; split; [eapply reach_trans; eauto|exact H2]. Qed.
+
+Lemma path_ok_app a ps1 b ps2 c : path_ok a ps1 b -> path_ok b ps2 c -> path_ok a (ps1 ++ ps2) c.
+Proof.
+  revert a; induction ps1 as [|p t IH]; intros a; cbn [path_ok app].
+  - apply path_ok_reach.
+  - intros [H1 H2] H3; split; [exact H1|]. apply IH; assumption.
+Qed.
+
+
+Lemma step_ok_weaken b cols p1 p2 : step_ok b cols p1 p2 -> step_ok false cols p1 p2.
+Proof.
+  destruct p1 as [[x1 y1] c1], p2 as [[x2 y2] c2]; cbn [step_ok].
+  intros [H|(H1 & H2 & _)]; [left; exact H|right; split; [exact H1|split; [exact H2|discriminate]]].
+Qed.
+
+Lemma layout_ok_weaken b cols ps : layout_ok b cols ps -> layout_ok false cols ps.
+Proof.
+  induction ps as [|p1 [|p2 t] IH]; cbn [layout_ok]; auto.
+  intros [H1 H2]; split; [eapply step_ok_weaken; eauto|apply IH; exact H2].
+Qed.
+
+Lemma path_ok_layout st ps en cols : path_ok st ps en -> layout_ok false cols ps.
+Proof.
+  revert st; induction ps as [|p1 [|p2 t] IH]; intros st; cbn [layout_ok]; auto.
+  cbn [path_ok]. intros (_ & H2 & H3). split.
+  - destruct p1 as [[x1 y1] c1], p2 as [[x2 y2] c2]; cbn [step_ok fst snd] in *.
+    destruct H2 as [[Ha Hb]|[Ha Hb]]; cbn [fst snd] in *; [left; lia|right; split; [lia|split; [lia|discriminate]]].
+  - apply (IH (fst (fst p1) + cw (snd p1), snd (fst p1))). cbn [path_ok]; auto.
+Qed.
+
+(* the loop shape shared by Print and by Wrap's inner loop *)
+Section Gen.
+Variable Itm : Type.
+Variable isbreak : Itm -> bool.
+Variable width : Itm -> Z.
+Variable cellof : Itm -> cell.
+Variable stop : Z -> bool.
+Hypothesis cellof_width : forall it, cw (cellof it) = width it.
+
+Fixpoint gen_places (cols : Z) (items : list Itm) (col row : Z) : list placement * (Z * Z) :=
+  match items with
+  | [] => ([], (col, row))
+  | it :: t =>
+      if isbreak it then gen_places cols t 0 (row + 1)
+      else if stop row then ([], (col, row))
+      else match fit cols col row (width it) with
+           | None => gen_places cols t col row
+           | Some (c1, r1) =>
+               let rest := if c1 + width it >=? cols then gen_places cols t 0 (r1 + 1)
+                           else gen_places cols t (c1 + width it) r1 in
+               ((c1, r1, cellof it) :: fst rest, snd rest)
+           end
+  end.
+
+(* no glyph overhangs the right edge of the window *)
+Lemma gen_fits cols items : forall col row p,
+  In p (fst (gen_places cols items col row)) -> fst (fst p) + cw (snd p) <= cols.
+Proof.
+  induction items as [|it t IH]; intros col row p; cbn [gen_places]; [intros []|].
+  destruct (isbreak it); [apply IH|]. destruct (stop row); [intros []|].
+  destruct (fit cols col row (width it)) as [[c1 r1]|] eqn:EF; [|apply IH].
+  cbn [fst snd]. intros [<-|Hin].
+  - cbn [fst snd]. rewrite cellof_width. apply fit_some in EF. lia.
+  - destruct (c1 + width it >=? cols); eapply IH; eauto.
+Qed.
+
+(* reading order *)
+Lemma gen_path cols items : forall col row,
+  path_ok (col, row) (fst (gen_places cols items col row)) (snd (gen_places cols items col row)).
+Proof.
+  induction items as [|it t IH]; intros col row; cbn [gen_places].
+  - apply reach_refl.
+  - destruct (isbreak it).
+    + eapply path_ok_reach; [|apply IH]. right; cbn [fst snd]; lia.
+    + destruct (stop row); [apply reach_refl|].
+      destruct (fit cols col row (width it)) as [[c1 r1]|] eqn:EF; [|apply IH].
+      cbn [fst snd path_ok]. rewrite cellof_width. apply fit_some in EF as [_ EF]. split.
+      * unfold reach; cbn [fst snd]. lia.
+      * destruct (c1 + width it >=? cols).
+        -- eapply path_ok_reach; [|apply IH]. right; cbn [fst snd]; lia.
+        -- apply IH.
+Qed.
+
+Section NonNeg.
+Variable cols : Z.
+Variable items0 : list Itm.
+
+Lemma gen_nonneg items : forall col row p,
+  (forall it, In it items -> 0 <= width it) -> 0 <= col ->
+  In p (fst (gen_places cols items col row)) -> 0 <= fst (fst p) /\ row <= snd (fst p).
+Proof.
+  induction items as [|it t IH]; intros col row p Hw Hc; cbn [gen_places]; [intros []|].
+  assert (Hw' : forall i, In i t -> 0 <= width i) by (intros; apply Hw; right; auto).
+  destruct (isbreak it).
+  { intros H; apply IH in H; [lia|exact Hw'|lia]. }
+  destruct (stop row); [intros []|].
+  destruct (fit cols col row (width it)) as [[c1 r1]|] eqn:EF; [|apply IH; auto].
+  apply fit_some in EF as [_ EF]. pose proof (Hw it (or_introl eq_refl)).
+  cbn [fst snd]. intros [<-|Hin]; [cbn [fst snd]; lia|].
+  destruct (c1 + width it >=? cols); apply IH in Hin; auto; lia.
+Qed.
+End NonNeg.
+
+(* which clusters appear, and in which order *)
+Definition placeable (cols : Z) (it : Itm) : bool := negb (isbreak it) && (width it <=? cols).
+
+Lemma gen_content cols items : forall col row,
+  (forall it, In it items -> 0 <= width it) -> 0 <= col ->
+  let r := gen_places cols items col row in
+  let all := map cellof (filter (placeable cols) items) in
+  (exists n, map snd (fst r) = firstn n all) /\
+  (stop (snd (snd r)) = false -> map snd (fst r) = all).
+Proof.
+  induction items as [|it t IH]; intros col row Hw Hc; cbn [gen_places filter].
+  - split; [exists O; reflexivity|reflexivity].
+  - assert (Hw' : forall i, In i t -> 0 <= width i) by (intros; apply Hw; right; auto).
+    pose proof (Hw it (or_introl eq_refl)) as Hwi.
+    destruct (isbreak it) eqn:EB.
+    { replace (placeable cols it) with false by (unfold placeable; rewrite EB; reflexivity).
+      apply IH; [exact Hw'|lia]. }
+    destruct (stop row) eqn:ES.
+    { cbn [fst snd map]. split; [exists O; reflexivity|]. rewrite ES; discriminate. }
+    destruct (fit cols col row (width it)) as [[c1 r1]|] eqn:EF.
+    + apply fit_some in EF as [EF1 EF2].
+      replace (placeable cols it) with true by (unfold placeable; rewrite EB; cbn [negb andb]; lia).
+      cbn [fst snd map].
+      set (rest := if c1 + width it >=? cols then gen_places cols t 0 (r1 + 1) else gen_places cols t (c1 + width it) r1).
+      assert (Hrest : (exists n, map snd (fst rest) = firstn n (map cellof (filter (placeable cols) t))) /\
+                      (stop (snd (snd rest)) = false -> map snd (fst rest) = map cellof (filter (placeable cols) t))).
+      { unfold rest; destruct (c1 + width it >=? cols); apply IH; auto; lia. }
+      destruct Hrest as [[n Hn] Hfull]. split.
+      * exists (S n); cbn [firstn]; rewrite Hn; reflexivity.
+      * intros Hs; rewrite (Hfull Hs); reflexivity.
+    + apply fit_none in EF.
+      replace (placeable cols it) with false by (unfold placeable; rewrite EB; cbn [negb andb]; lia).
+      apply IH; auto.
+Qed.
+
+(* without line breaks a new row is the next row, started only when the row is full or the
+   next cluster does not fit *)
+Definition no_break (items : list Itm) : bool := forallb (fun it => negb (isbreak it)) items.
+
+Definition head_ok (nonl : bool) (cols col row : Z) (ps : list placement) : Prop :=
+  match ps with
+  | [] => True
+  | p :: _ =>
+      (snd (fst p) = row /\ fst (fst p) = col) \/
+      (row < snd (fst p) /\ fst (fst p) = 0 /\
+       (nonl = true -> snd (fst p) = row + 1 /\ cols < col + cw (snd p)))
+  end.
+
+Lemma gen_head cols items : forall col row,
+  head_ok (no_break items) cols col row (fst (gen_places cols items col row)).
+Proof.
+  induction items as [|it t IH]; intros col row; cbn [gen_places no_break forallb]; [exact I|].
+  destruct (isbreak it) eqn:EB; cbn [negb andb].
+  - specialize (IH 0 (row + 1)). unfold head_ok in *.
+    destruct (fst (gen_places cols t 0 (row + 1))) as [|p ps]; [exact I|].
+    right. destruct IH as [[H1 H2]|(H1 & H2 & _)]; (split; [lia|split; [lia|discriminate]]).
+  - destruct (stop row); [exact I|].
+    destruct (fit cols col row (width it)) as [[c1 r1]|] eqn:EF; [|apply IH].
+    cbn [fst snd head_ok]. rewrite cellof_width. apply fit_some in EF as [_ EF]. lia.
+Qed.
+
+Lemma gen_layout cols items : forall col row,
+  layout_ok (no_break items) cols (fst (gen_places cols items col row)).
+Proof.
+  induction items as [|it t IH]; intros col row; cbn [gen_places no_break forallb]; [exact I|].
+  destruct (isbreak it) eqn:EB; cbn [negb andb].
+  - eapply layout_ok_weaken; apply IH.
+  - destruct (stop row); [exact I|].
+    destruct (fit cols col row (width it)) as [[c1 r1]|] eqn:EF; [|apply IH].
+    cbn [fst snd]. fold (no_break t).
+    set (rest := if c1 + width it >=? cols then gen_places cols t 0 (r1 + 1) else gen_places cols t (c1 + width it) r1).
+    assert (Hl : layout_ok (no_break t) cols (fst rest)) by (unfold rest; destruct (c1 + width it >=? cols); apply IH).
+    assert (Hfit : forall p, In p (fst rest) -> fst (fst p) + cw (snd p) <= cols).
+    { unfold rest; destruct (c1 + width it >=? cols); intros p Hp; eapply gen_fits; eauto. }
+    assert (Hh : if c1 + width it >=? cols then head_ok (no_break t) cols 0 (r1 + 1) (fst rest)
+                 else head_ok (no_break t) cols (c1 + width it) r1 (fst rest)).
+    { unfold rest; destruct (c1 + width it >=? cols); apply gen_head. }
+    destruct (fst rest) as [|p2 ps] eqn:ER; [exact I|].
+    cbn [layout_ok]. split; [|exact Hl].
+    specialize (Hfit p2 (or_introl eq_refl)).
+    destruct p2 as [[x2 y2] c2]; cbn [step_ok head_ok fst snd] in *. rewrite cellof_width.
+    destruct (c1 + width it >=? cols) eqn:EC.
+    + destruct Hh as [[H1 H2]|(H1 & H2 & H3)].
+      * right. split; [lia|]. split; [lia|]. intros _; split; [lia|left; lia].
+      * right. split; [lia|]. split; [lia|]. intros Hn. specialize (H3 Hn). lia.
+    + destruct Hh as [[H1 H2]|(H1 & H2 & H3)].
+      * left; lia.
+      * right. split; [lia|]. split; [lia|]. intros Hn. specialize (H3 Hn). split; [lia|right; lia].
+Qed.
+
+End Gen.
+
+(* ------------------------------------------------------------------ instances *)
+
+Section Layouts.
+Variable measure : text -> Z.
+Variable remeasure : bool.
+Variable trailing : text -> bool.
+
+Notation cwidth := (char_width measure remeasure).
+
+(* what Print puts into a cell for a cluster: the whole cluster, its width, the style *)
+Definition item_cell (it : character * Z) : cell := mkCell (gr (fst it)) (cwidth (fst it)) (snd it).
+Definition item_nl (it : character * Z) : bool := has_nl (gr (fst it)).
+Definition item_width (it : character * Z) : Z := cwidth (fst it).
+
+Lemma print_places_gen cols rows items : forall col row,
+  print_places measure remeasure cols rows items col row =
+  gen_places _ item_nl item_width item_cell (fun row => row >? rows) cols items col row.
+Proof.
+  induction items as [|[ch st] t IH]; intros col row; cbn [print_places gen_places]; [reflexivity|].
+  change (item_nl (ch, st)) with (has_nl (gr ch)).
+  change (item_width (ch, st)) with (cwidth ch).
+  change (item_cell (ch, st)) with (mkCell (gr ch) (cwidth ch) st).
+  destruct (has_nl (gr ch)); [apply IH|]. destruct (row >? rows); [reflexivity|].
+  destruct (fit cols col row (cwidth ch)) as [[c1 r1]|]; [|apply IH].
+  destruct (c1 + cwidth ch >=? cols); rewrite IH; reflexivity.
+Qed.
+
+Definition wchar_cell (st : Z) (ch : character) : cell := mkCell (gr ch) (wd ch) st.
+
+Lemma wrap_chars_places_gen cols chars st : forall col row,
+  wrap_chars_places trailing cols chars st col row =
+  gen_places _ (fun ch => trailing (gr ch)) wd (wchar_cell st) (fun _ => false) cols chars col row.
+Proof.
+  induction chars as [|ch t IH]; intros col row; cbn [wrap_chars_places gen_places]; [reflexivity|].
+  destruct (trailing (gr ch)); [apply IH|].
+  destruct (fit cols col row (wd ch)) as [[c1 r1]|]; [|apply IH].
+  change (wchar_cell st ch) with (mkCell (gr ch) (wd ch) st). destruct (c1 + wd ch >=? cols); rewrite IH; reflexivity.
+Qed.
+
+
+Lemma print_places_fits cols rows items col row p :
+  In p (fst (print_places measure remeasure cols rows items col row)) -> fits_in cols p.
+Proof. rewrite print_places_gen. intros H; left; revert H; apply gen_fits. reflexivity. Qed.
+
+Lemma wrap_chars_places_fits cols chars st col row p :
+  In p (fst (wrap_chars_places trailing cols chars st col row)) -> fits_in cols p.
+Proof. rewrite wrap_chars_places_gen. intros H; left; revert H; apply gen_fits. reflexivity. Qed.
+
+Lemma wrap_places_fits cols rows lsegs : forall col row p,
+  In p (fst (wrap_places measure remeasure trailing cols rows lsegs col row)) -> fits_in cols p.
+Proof.
+  induction lsegs as [|[cls st] t IH]; intros col row p; cbn [wrap_places]; [intros []|].
+  destruct (row >=? rows); [intros []|]. cbn [fst]. intros H; apply in_app_or in H as [H|H].
+  - eapply wrap_chars_places_fits; eauto.
+  - eapply IH; eauto.
+Qed.
+
+Lemma println_places_fits cols items : forall col row p,
+  In p (println_places measure remeasure cols items col row) -> fits_in cols p.
+Proof.
+  induction items as [|[ch st] t IH]; intros col row p; cbn [println_places]; [intros []|].
+  destruct (col + cwidth ch >? cols) eqn:E; [intros []|].
+  intros [<-|H]; [left; cbn [fst snd cw]; lia|eapply IH; eauto].
+Qed.
+
+Lemma ptrunc_places_fits cols items : forall col row p,
+  In p (ptrunc_places measure remeasure cols items col row) -> fits_in cols p.
+Proof.
+  induction items as [|[ch st] t IH]; intros col row p; cbn [ptrunc_places]; [intros []|].
+  destruct (col + 1 + cwidth ch >? cols) eqn:E.
+  - intros [<-|[]]. right; cbn [snd cw]; lia.
+  - intros [<-|H]; [left; cbn [fst snd cw]; lia|eapply IH; eauto].
+Qed.
+
+Lemma op_places_fits w o p :
+  is_text_op o = true -> In p (op_places measure remeasure trailing w o) -> fits_in (fw (wframe w)) p.
+Proof.
+  destruct o as [| | | |segs|row segs|row segs|lsegs]; try discriminate; intros _; cbn [op_places].
+  - apply print_places_fits.
+  - destruct (row >=? fh (wframe w)); [intros []|apply ptrunc_places_fits].
+  - destruct (row >=? fh (wframe w)); [intros []|apply println_places_fits].
+  - apply wrap_places_fits.
+Qed.
+
+(* text_no_overhang: on windows whose edges respect their parents (anything made by
+   Vaxis.Window and New) a cell changed by a text helper has its whole glyph inside the
+   window, all ancestors and the screen *)
+Lemma text_no_overhang w s o s' ret X Y c :
+  WF s -> edges_ok w (scols s) (srows s) = true -> is_text_op o = true ->
+  run_op_with measure remeasure trailing w s o = Some (s', ret) ->
+  sget s' X Y = Some c -> sget s X Y <> Some c ->
+  forall i, 0 <= i < glyph_w c -> visible w s (X + i) Y = true.
+Proof.
+  intros H He Ht Hrun Hn Ho.
+  destruct (run_op_places measure remeasure trailing w s o) as (ret' & E).
+  { destruct o; try discriminate; reflexivity. }
+  rewrite E in Hrun.
+  destruct (draw_places w s (op_places measure remeasure trailing w o)) as [s1|] eqn:ED; [|discriminate].
+  injection Hrun as <- <-.
+  destruct (changed_by_placement w _ s s1 X Y c H ED Hn Ho) as (HV & p & Hp & Hc & Hx & Hy).
+  apply (glyph_inside w s X Y c He HV).
+  pose proof (op_places_fits w o p Ht Hp) as Hf. unfold fits_in in Hf. rewrite Hc, Hx in Hf. exact Hf.
+Qed.
+
+(* ---- Print ---- *)
+
+Definition no_newline (items : list (character * Z)) : bool := no_break _ item_nl items.
+Definition printable (cols : Z) (it : character * Z) : bool := placeable _ item_nl item_width cols it.
+
+Lemma print_layout cols rows items :
+  (forall it, In it items -> 0 <= item_width it) ->
+  let r := print_places measure remeasure cols rows items 0 0 in
+  let ps := fst r in
+  let all := map item_cell (filter (printable cols) items) in
+  (* inside the window horizontally, never above it *)
+  (forall p, In p ps -> 0 <= fst (fst p) /\ fst (fst p) + cw (snd p) <= cols /\ 0 <= snd (fst p)) /\
+  (* reading order, advance by width, new row rules *)
+  path_ok (0, 0) ps (snd r) /\ layout_ok (no_newline items) cols ps /\
+  (* every cluster whole, in one cell, in order; all of them unless the text ran below the window *)
+  (exists n, map snd ps = firstn n all) /\ (snd (snd r) <= rows -> map snd ps = all).
+Proof.
+  intros Hw r ps all. unfold ps, r. rewrite print_places_gen.
+  split; [|split; [|split; [|split]]].
+  - intros p Hp. pose proof (gen_fits _ item_nl item_width item_cell _ (fun _ => eq_refl) _ _ _ _ _ Hp).
+    pose proof (gen_nonneg _ item_nl item_width item_cell _ cols items 0 0 p Hw (Z.le_refl 0) Hp). lia.
+  - apply gen_path. reflexivity.
+  - apply gen_layout. reflexivity.
+  - apply (gen_content _ item_nl item_width item_cell (fun row => row >? rows) cols items 0 0 Hw (Z.le_refl 0)).
+  - intros Hr. apply (gen_content _ item_nl item_width item_cell (fun row => row >? rows) cols items 0 0 Hw (Z.le_refl 0)).
+    lia.
+Qed.
+
+(* ---- Println / PrintTruncate: one row, left to right ---- *)
+
+Lemma println_layout cols items : forall col row,
+  let ps := println_places measure remeasure cols items col row in
+  (forall p, In p ps -> snd (fst p) = row) /\
+  (exists en, path_ok (col, row) ps en) /\
+  (* the longest prefix that fits, each cluster whole *)
+  (exists n, map snd ps = map item_cell (firstn n items)) .
+Proof.
+  induction items as [|[ch st] t IH]; intros col row; cbn [println_places].
+  - split; [intros p []|]. split; [exists (col, row); apply reach_refl|exists O; reflexivity].
+  - destruct (col + cwidth ch >? cols).
+    + split; [intros p []|]. split; [exists (col, row); apply reach_refl|exists O; reflexivity].
+    + destruct (IH (col + cwidth ch) row) as (H1 & [en H2] & [n H3]). split; [|split].
+      * intros p [<-|Hp]; [reflexivity|auto].
+      * exists en. cbn [path_ok fst snd cw]. split; [apply reach_refl|exact H2].
+      * exists (S n). cbn [firstn map]. rewrite H3. reflexivity.
+Qed.
+
+Lemma ptrunc_layout cols items : forall col row,
+  let ps := ptrunc_places measure remeasure cols items col row in
+  (forall p, In p ps -> snd (fst p) = row) /\
+  (exists en, path_ok (col, row) ps en) /\
+  (* a prefix of the clusters, followed by the ellipsis iff a cluster was cut *)
+  (exists n, map (fun p => cg (snd p)) ps = map (fun it => gr (fst it)) (firstn n items)
+             \/ (n < length items)%nat /\
+                map (fun p => cg (snd p)) ps = map (fun it => gr (fst it)) (firstn n items) ++ [ellipsis]).
+Proof.
+  induction items as [|[ch st] t IH]; intros col row; cbn [ptrunc_places].
+  - split; [intros p []|]. split; [exists (col, row); apply reach_refl|exists O; left; reflexivity].
+  - destruct (col + 1 + cwidth ch >? cols).
+    + split; [intros p [<-|[]]; reflexivity|]. split.
+      * exists (col + 1, row). cbn [path_ok fst snd cw]. split; apply reach_refl.
+      * exists O. right. split; [cbn [length]; lia|reflexivity].
+    + destruct (IH (col + cwidth ch) row) as (H1 & [en H2] & [n H3]). split; [|split].
+      * intros p [<-|Hp]; [reflexivity|auto].
+      * exists en. cbn [path_ok fst snd cw]. split; [apply reach_refl|exact H2].
+      * exists (S n). cbn [firstn map length fst snd cg]. destruct H3 as [H3|[H3 H4]].
+        -- left. rewrite H3; reflexivity.
+        -- right. split; [lia|]. rewrite H4; reflexivity.
+Qed.
+
+(* ---- Wrap ---- *)
+
+Lemma wrap_start_reach cols total col row : reach (col, row) (wrap_start cols total col row).
+Proof.
+  unfold wrap_start. destruct (total >? cols); [apply reach_refl|].
+  destruct (total + col >? cols); [right; cbn [fst snd]; lia|apply reach_refl].
+Qed.
+
+Lemma wrap_places_path cols rows lsegs : forall col row,
+  path_ok (col, row) (fst (wrap_places measure remeasure trailing cols rows lsegs col row))
+          (snd (wrap_places measure remeasure trailing cols rows lsegs col row)).
+Proof.
+  induction lsegs as [|[cls st] t IH]; intros col row; cbn [wrap_places]; [apply reach_refl|].
+  destruct (row >=? rows); [apply reach_refl|]. cbn [fst snd].
+  pose proof (wrap_start_reach cols (zsum (map cwidth (characters cls))) col row) as Hr.
+  destruct (wrap_start cols (zsum (map cwidth (characters cls))) col row) as [c0 r0]. cbn [fst snd].
+  eapply path_ok_app; [|apply IH].
+  eapply path_ok_reach; [exact Hr|].
+  rewrite wrap_chars_places_gen. rewrite <- surjective_pairing. apply gen_path. reflexivity.
+Qed.
+
+End Layouts.
+
+(* ------------------------------------------------------------------ Characters *)
+
+(* Characters never splits or merges clusters: each character is a whole cluster with the
+   width uniseg reported, or one of the eight spaces a tab stands for *)
+Lemma characters_whole cls ch :
+  In ch (characters cls) ->
+  (In (gr ch, wd ch) cls /\ gr ch <> [9]) \/ (ch = mkChar [32] 1 /\ exists w, In ([9], w) cls).
+Proof.
+  unfold characters; rewrite in_flat_map. intros ([g w] & Hin & Hch); cbn [fst snd] in Hch.
+  destruct (zlist_eqb g [9]) eqn:E.
+  - right. apply repeat_spec in Hch. split; [exact Hch|]. exists w.
+    assert (g = [9]); [|subst; exact Hin].
+    destruct g as [|a [|b g']]; cbn in E; try discriminate.
+    + apply andb_prop in E as [E _]. f_equal; lia.
+    + apply andb_prop in E as [_ E]; discriminate.
+  - destruct Hch as [<-|[]]. left; cbn [gr wd]. split; [exact Hin|].
+    intros ->; cbn in E; discriminate.
+Qed.
+
+Lemma characters_app a b : characters (a ++ b) = characters a ++ characters b.
+Proof. unfold characters; apply flat_map_app. Qed.
